@@ -16,6 +16,19 @@ fn stub_outpoint_from_str(_s: &str) -> Result<OutPoint, bitcoin::transaction::Pa
     None => Err(bitcoin::transaction::ParseOutPointError::Format),
   }
 }
+/// core::slice::memchr::memrchr by its definition (std's word-at-a-time version makes CBMC unwind
+/// every loop to the bound because of pointer-alignment nondeterminism)
+fn naive_memrchr(x: u8, text: &[u8]) -> Option<usize> {
+  let mut i = text.len();
+  while i > 0 {
+    i -= 1;
+    if text[i] == x {
+      return Some(i);
+    }
+  }
+  None
+}
+
 fn stub_offset(_s: &str, _r: u32) -> Result<u64, core::num::ParseIntError> {
   match unsafe { SP_OFFSET } {
     Some(v) => Ok(v),
@@ -28,12 +41,14 @@ fn stub_offset(_s: &str, _r: u32) -> Result<u64, core::num::ParseIntError> {
 //# props: C31
 //# kind: complete for the text shape `TXID:VOUT:OFFSET` (every outcome of the outpoint parser and of the offset parser)
 //# fns: SatPoint::from_str
-//# assume: bitcoin's OutPoint::from_str and std's u64 parsing are under contract (stubs: any value or an error)
-//# timeout: 600
+//# assume: bitcoin's OutPoint::from_str and std's u64 parsing are under contract (stubs: any value or an error); core::slice::memchr::memrchr equals its naive definition (stub)
+//# cbmc: --unwindset memcmp.0:40
+//# timeout: 900
 #[cfg_attr(kani, kani::proof)]
 #[cfg_attr(kani, kani::unwind(12))]
 #[cfg_attr(kani, kani::stub(<OutPoint as core::str::FromStr>::from_str, stub_outpoint_from_str))]
 #[cfg_attr(kani, kani::stub(u64::from_str_radix, stub_offset))]
+#[cfg_attr(kani, kani::stub(core::slice::memchr::memrchr, naive_memrchr))]
 pub fn c31_satpoint_from_str() {
   let op: Option<([u8; 32], u32)> = if kani::any() { Some((kani::any(), kani::any())) } else { None };
   let off: Option<u64> = kani::any();
